@@ -9,7 +9,7 @@ func init() {
 	register(&property{
 		ID: "C11",
 		Meta: propMeta{
-			Level: "Decides exactly the structural clause of the statement — no operation touches the shared certificate tables, the lock flag or the single upstream connection without holding the state mutex in a sufficient mode — on every path of every function of the shim package, through helpers, closures and interface dispatch (interprocedural lock-state summaries), plus: one critical section per operation, no re-acquisition of the non-reentrant mutex, no blocking wait while it is held; and the same discipline for the yubiagent client's connection lock. Completion, reply matching and sequential equivalence follow from these only together with the runtime's mutex semantics and are not themselves decided.",
+			Level:       "Decides exactly the structural clause of the statement — no operation touches the shared certificate tables, the lock flag or the single upstream connection without holding the state mutex in a sufficient mode — on every path of every function of the shim package, through helpers, closures and interface dispatch (interprocedural lock-state summaries), plus: one critical section per operation, no re-acquisition of the non-reentrant mutex, no blocking wait while it is held; and the same discipline for the yubiagent client's connection lock. Completion, reply matching and sequential equivalence follow from these only together with the runtime's mutex semantics and are not themselves decided.",
 			Technique:   "static analysis: lock-state must-dataflow on go/ssa with interprocedural requirement summaries over the VTA call graph (lockset / typestate)",
 			Explanation: "Per function a forward must-dataflow computes the mode of the state mutex held before each instruction (Lock/RLock/Unlock/RUnlock calls on the mutex field; defer Unlock holds to exit). Every access to a guarded field is an obligation: writes, map updates/deletes and raw I/O on the connection need the write lock, reads and calls on the underlying agent need at least the read lock. Uncovered obligations are propagated to callers through static calls, closure calls and VTA-resolved interface/func-value calls until an entry point (exported function or method): an uncovered obligation there is a violation reported with the call chain. Objects allocated in the same function (constructors) are exempt.",
 			Assumptions: []string{"sync.RWMutex/sync.Mutex semantics", "x/crypto's agent client serialises its own calls with an internal mutex (read in source), so read mode suffices among calls on the underlying agent while write mode excludes them from the raw exchange of Forward", "VTA over-approximates dynamic dispatch", "all methods operate on the one shared server object (type-based lock abstraction)"},
